@@ -60,6 +60,11 @@ class C09(Case):
                 x = let(Item, domain=items)
                 q = infer(entity(Made(src=x, val=x.a), S.build(sp["cond"], {"x": x})))
             return q
+        if quant == "an_rule":  # a rule written with an(...) inside rule_mode, without infer()
+            with rule_mode():
+                x = let(Item, domain=items)
+                q = an(entity(Made(src=x, val=x.a), S.build(sp["cond"], {"x": x})))
+            return q
         if quant == "add":
             with symbolic_mode():
                 x = let(Item, domain=items)
@@ -96,7 +101,7 @@ class C09(Case):
                             res = ["none"]
                     else:
                         rs = list(q.evaluate())
-                        if sp["quant"] in ("infer", "add"):
+                        if sp["quant"] in ("infer", "add", "an_rule"):
                             data["made"].append((amb, rs))
                             res = ["made", [[type(o).__name__, self._idx(getattr(o, "src", None), items)] for o in rs]]
                         else:
@@ -111,7 +116,7 @@ class C09(Case):
         items = data["items"]
         cond = sp["cond"]
         sat = [S.holds(alg, cond, {"x": it}) for it in items]
-        uses_pred = any(k in json.dumps(cond) for k in ('"pf"', '"PC"', '"m"', '"big"'))
+        uses_pred = any(k in json.dumps(cond) for k in ('"pf"', '"PC"', '"m"', '"big"', '"pf2"', '"PC2"'))
         obs = []
         for amb in AMBIENTS:
             o = outcome[amb]
@@ -161,14 +166,15 @@ def shapes(tier, seed):
               ["not", ["pf", "x"]], ["not", ["PC", "x"]],
               ["and", ["pf", "x"], ["cmp", "lt", ["a", "x", "b"], ["a", "x", "c"]]],
               ["or", ["PC", "x"], ["pf", "x"]], ["and", ["PC", "x"], ["pf", "x"]]]
-    for q in ("an", "the", "infer", "add"):
+    leaves += [["pf2", "x", 1], ["PC2", "x", 0], ["cmp", "le", ["a", "x", "b"], ["a", "x", "c"]]]
+    for q in ("an", "the", "infer", "add", "an_rule"):
         for c in leaves:
             out.append(dict(quant=q, cond=c))
         out.append(dict(quant=q, cond=["HT", "x"], mixed=True))
         out.append(dict(quant=q, cond=["and", ["HT", "x"], ["pf", "x"]], mixed=True))
     if tier == "thorough":
         core = S.core_leaves("x")
-        for q in ("an", "the", "infer", "add"):
+        for q in ("an", "the", "infer", "add", "an_rule"):
             for p in (["pf", "x"], ["PC", "x"]):
                 for l in core:
                     for op in ("and", "or"):
